@@ -1,38 +1,238 @@
 package main
 
+// govc: contract-based deductive verification of Go (gopcua/opcua) via go/ssa + SMT.
+//
+// usage: govc check  <PROP> quick|thorough      run the check of one property
+//        govc vc     <func-name-substring>       dump VC scripts of matching functions under contract
+//        govc ssa    <func-name-substring>       dump SSA
+//        govc list                               list functions under contract and their properties
+
 import (
 	"fmt"
+	"go/ast"
+	"go/parser"
+	"go/types"
 	"os"
+	"path/filepath"
+	"sort"
+	"strings"
 
 	"golang.org/x/tools/go/packages"
 	"golang.org/x/tools/go/ssa"
 	"golang.org/x/tools/go/ssa/ssautil"
 )
 
-func main() {
-	cfg := &packages.Config{Mode: packages.LoadAllSyntax, Dir: "/repo", BuildFlags: []string{"-tags", "verif"}}
-	pkgs, err := packages.Load(cfg, os.Args[1])
+type Global struct {
+	repoDir   string
+	verifDir  string
+	prog      *ssa.Program
+	pkgs      []*packages.Package
+	typesPkg  map[string]*types.Package
+	pkgByName map[string]*types.Package
+	fnByName  map[string]*ssa.Function
+	contracts *ContractSet
+	loadSecs  float64
+	findings  map[string]*Finding // known findings of the property being checked, by obligation name
+}
+
+func parseTypeExpr(s string) (ast.Expr, error) { return parser.ParseExpr(s) }
+
+func (g *Global) lookupPred(pkg *types.Package, name string) *Pred {
+	if pkg != nil {
+		if p := g.contracts.Preds[pkg.Path()+"."+name]; p != nil {
+			return p
+		}
+	}
+	// unique bare name across packages
+	var found *Pred
+	for k, p := range g.contracts.Preds {
+		if strings.HasSuffix(k, "."+name) {
+			if found != nil {
+				return nil
+			}
+			found = p
+		}
+	}
+	return found
+}
+
+func (g *Global) lookupUFunc(pkg *types.Package, name string) *UFunc {
+	if pkg != nil {
+		if u := g.contracts.UFuncs[pkg.Path()+"."+name]; u != nil {
+			return u
+		}
+	}
+	var found *UFunc
+	for k, u := range g.contracts.UFuncs {
+		if strings.HasSuffix(k, "."+name) {
+			if found != nil {
+				return nil
+			}
+			found = u
+		}
+	}
+	return found
+}
+
+func envOr(k, d string) string {
+	if v := os.Getenv(k); v != "" {
+		return v
+	}
+	return d
+}
+
+func load(patterns []string) (*Global, error) {
+	g := &Global{repoDir: envOr("VERIF_REPO", "/repo"), verifDir: envOr("VERIF_DIR", "/verif"),
+		typesPkg: map[string]*types.Package{}, pkgByName: map[string]*types.Package{}, fnByName: map[string]*ssa.Function{}}
+	cfg := &packages.Config{Mode: packages.LoadAllSyntax, Dir: g.repoDir, BuildFlags: []string{"-tags", "verif"},
+		Env: append(os.Environ(), "GOFLAGS=-mod=mod", "GOPROXY=off", "GOSUMDB=off", "GOTOOLCHAIN=local")}
+	pkgs, err := packages.Load(cfg, patterns...)
 	if err != nil {
-		panic(err)
+		return nil, err
 	}
-	prog, spkgs := ssautil.AllPackages(pkgs, ssa.GlobalDebug|ssa.InstantiateGenerics)
+	nerr := 0
+	packages.Visit(pkgs, nil, func(p *packages.Package) {
+		for _, e := range p.Errors {
+			if strings.HasPrefix(p.PkgPath, modulePath) {
+				fmt.Fprintf(os.Stderr, "load error: %v\n", e)
+				nerr++
+			}
+		}
+		g.typesPkg[p.PkgPath] = p.Types
+		if p.Types != nil {
+			if _, dup := g.pkgByName[p.Types.Name()]; !dup || strings.HasPrefix(p.PkgPath, modulePath) {
+				g.pkgByName[p.Types.Name()] = p.Types
+			}
+		}
+	})
+	if nerr > 0 {
+		return nil, fmt.Errorf("%d load errors in the module (does /repo compile with -tags verif?)", nerr)
+	}
+	g.pkgs = pkgs
+	prog, _ := ssautil.AllPackages(pkgs, ssa.GlobalDebug|ssa.InstantiateGenerics)
 	prog.Build()
-	for _, p := range spkgs {
-		for _, m := range p.Members {
-			if f, ok := m.(*ssa.Function); ok && f.Name() == os.Args[2] {
-				f.WriteTo(os.Stdout)
+	g.prog = prog
+	for fn := range ssautil.AllFunctions(prog) {
+		g.fnByName[fn.String()] = fn
+	}
+	// contracts: verif_contracts*.go in module packages + /verif/contracts/*.contracts
+	g.contracts = newContractSet()
+	var files []string
+	packages.Visit(pkgs, nil, func(p *packages.Package) {
+		if !strings.HasPrefix(p.PkgPath, modulePath) {
+			return
+		}
+		for _, f := range p.GoFiles {
+			if strings.HasPrefix(filepath.Base(f), "verif_") {
+				files = append(files, p.PkgPath+"\x00"+f)
 			}
 		}
-		if len(os.Args) > 3 {
-			t := p.Type(os.Args[2])
-			ms := prog.MethodSets.MethodSet(t.Type())
-			_ = ms
-			for _, f := range ssautil.AllFunctions(prog) {
-				_ = f
-			}
-			fn := prog.LookupMethod(ptr(t), p.Pkg, os.Args[3])
-			if fn != nil { fn.WriteTo(os.Stdout) }
+	})
+	sort.Strings(files)
+	for _, pf := range files {
+		i := strings.Index(pf, "\x00")
+		if err := g.contracts.parseContractFile(pf[i+1:], pf[:i]); err != nil {
+			return nil, err
 		}
 	}
-	fmt.Println("ok")
+	ext, _ := filepath.Glob(filepath.Join(g.verifDir, "contracts", "*.contracts"))
+	sort.Strings(ext)
+	for _, f := range ext {
+		if err := g.contracts.parseContractFile(f, ""); err != nil {
+			return nil, err
+		}
+	}
+	return g, nil
+}
+
+func (g *Global) findFuncs(sub string) []*ssa.Function {
+	var out []*ssa.Function
+	for n, f := range g.fnByName {
+		if strings.Contains(n, sub) {
+			out = append(out, f)
+		}
+	}
+	sort.Slice(out, func(i, j int) bool { return out[i].String() < out[j].String() })
+	return out
+}
+
+func main() {
+	if len(os.Args) < 2 {
+		fmt.Fprintln(os.Stderr, "usage: govc check <PROP> quick|thorough | vc <func> | ssa <func> | list")
+		os.Exit(2)
+	}
+	switch os.Args[1] {
+	case "ssa":
+		g, err := load([]string{"./..."})
+		if err != nil {
+			fmt.Fprintln(os.Stderr, err)
+			os.Exit(2)
+		}
+		for _, f := range g.findFuncs(os.Args[2]) {
+			f.WriteTo(os.Stdout)
+		}
+	case "vc":
+		g, err := load(loadPatterns())
+		if err != nil {
+			fmt.Fprintln(os.Stderr, err)
+			os.Exit(2)
+		}
+		for _, c := range g.contracts.Order {
+			if !strings.Contains(c.Full, os.Args[2]) || c.Assumed {
+				continue
+			}
+			fn := g.fnByName[c.Full]
+			if fn == nil {
+				fmt.Printf("; no function %s\n", c.Full)
+				continue
+			}
+			vc := g.genVC(fn, c)
+			if vc.Err != nil {
+				fmt.Printf("; ERROR %s: %v\n", c.Full, vc.Err)
+				continue
+			}
+			if len(os.Args) > 3 {
+				for _, ob := range vc.Obs {
+					if strings.Contains(ob.Name, os.Args[3]) {
+						fmt.Println(vc.script(ob, -1, "", nil))
+						return
+					}
+				}
+				continue
+			}
+			rs := g.solveAll([]*FnVC{vc}, 10, false)
+			for _, r := range rs {
+				fmt.Printf("%-8s %-7s %6dms %s   [%s]\n", r.Status, r.Solver, r.Ms, r.Ob.Name, r.Ob.Pos)
+			}
+		}
+	case "list":
+		g, err := load(loadPatterns())
+		if err != nil {
+			fmt.Fprintln(os.Stderr, err)
+			os.Exit(2)
+		}
+		for _, c := range g.contracts.Order {
+			st := "verified"
+			if c.Assumed {
+				st = "assumed"
+			}
+			if g.fnByName[c.Full] == nil && !strings.Contains(c.Key, "iface ") {
+				st += " (NO SUCH FUNCTION)"
+			}
+			fmt.Printf("%-70s %-10s %v\n", c.Full, st, c.Props)
+		}
+	case "check":
+		if len(os.Args) < 4 {
+			fmt.Fprintln(os.Stderr, "usage: govc check <PROP> quick|thorough")
+			os.Exit(2)
+		}
+		os.Exit(runCheck(os.Args[2], os.Args[3]))
+	default:
+		fmt.Fprintln(os.Stderr, "unknown command")
+		os.Exit(2)
+	}
+}
+
+func loadPatterns() []string {
+	return []string{".", "./ua", "./uacp", "./uasc", "./uapolicy", "./server", "./monitor"}
 }
